@@ -80,6 +80,21 @@ func convertSchema(schema *schema_j5pb.Field) (*Schema, error) {
 	case *schema_j5pb.Field_Bool:
 		out.SchemaItem.Type = convertBooleanItem(t.Bool)
 
+	case *schema_j5pb.Field_Key:
+		out.SchemaItem.Type = convertKeyItem(t.Key)
+
+	case *schema_j5pb.Field_Bytes:
+		out.SchemaItem.Type = &StringItem{Format: Some("byte")}
+
+	case *schema_j5pb.Field_Date:
+		out.SchemaItem.Type = &StringItem{Format: Some("date")}
+
+	case *schema_j5pb.Field_Timestamp:
+		out.SchemaItem.Type = &StringItem{Format: Some("date-time")}
+
+	case *schema_j5pb.Field_Decimal:
+		out.SchemaItem.Type = &StringItem{Format: Some("decimal")}
+
 	case *schema_j5pb.Field_Array:
 		out.SchemaItem.Type, err = convertArrayItem(t.Array)
 		if err != nil {
@@ -159,6 +174,22 @@ func convertStringItem(item *schema_j5pb.StringField) *StringItem {
 		out.MaxLength = Maybe(item.Rules.MaxLength)
 	}
 
+	return out
+}
+
+func convertKeyItem(item *schema_j5pb.KeyField) *StringItem {
+	out := &StringItem{}
+	if item.Format == nil {
+		return out
+	}
+	switch ft := item.Format.Type.(type) {
+	case *schema_j5pb.KeyFormat_Uuid:
+		out.Format = Some("uuid")
+	case *schema_j5pb.KeyFormat_Id62:
+		out.Format = Some("id62")
+	case *schema_j5pb.KeyFormat_Custom_:
+		out.Pattern = Some(ft.Custom.Pattern)
+	}
 	return out
 }
 
